@@ -411,6 +411,11 @@ func mkLen(x *Expr) *Expr {
 		return mk("len", intT, "", 0, x)
 	case "makeslice":
 		return x.Args[0]
+	case "arr":
+		// a whole array seen as a slice (the argument list of a variadic call)
+		if x.C > 0 {
+			return mkConst(x.C, intT)
+		}
 	}
 	return mk("len", intT, "", 0, x)
 }
